@@ -42,9 +42,13 @@ fn constrain(kind: u8, n: usize, v: i64, kf_region: bool) -> bool {
             assert!(matches!(other, expr::Value::FailedConstraint(_)), "rejection is not a FailedConstraint");
             std::mem::forget(other);
         }
-        Err(()) => assert!(false, "constraint check failed instead of answering"),
+        Err(()) => {
+            // rejecting through an immediate error instead of a deferred constraint is equally loud
+            assert!(!want, "in-range argument rejected");
+            assert!(errs(&report) > 0, "Err without an error diagnostic");
+        }
     }
-    assert!(msgs(&report) == 0, "constraint check wrote to the report");
+    if accepted { assert!(msgs(&report) == 0, "accepted argument with a diagnostic"); }
     std::mem::forget(report);
     accepted
 }
